@@ -16,7 +16,7 @@ open TraitsVerif TraitsVerif.Model.Persist
 def Idem (E : Env) : Prop := ∀ t a b, E.lv t a = .ok b → E.lv t b = .ok b
 
 /-- Validity of a leaf does not depend on *which copy* of a referenced object it is. -/
-def CopyStable (E : Env) : Prop := ∀ t a, E.lv t a = .ok a → E.lv t a.copied = .ok a.copied
+def CopyStable (E : Env) : Prop := ∀ t a n, E.lv t a = .ok a → E.lv t (a.copiedAt n) = .ok (a.copiedAt n)
 
 /-! ## Predicates -/
 
@@ -67,7 +67,7 @@ theorem normL_eq_map : ∀ l : List CVal, normL l = l.map norm
   | [] => rfl
   | v :: vs => by simp [normL, normL_eq_map vs]
 
-@[simp] theorem Leaf.norm_copied (a : Leaf) : Leaf.norm a.copied = Leaf.norm a := by
+@[simp] theorem Leaf.norm_copiedAt (a : Leaf) (n : Nat) : Leaf.norm (a.copiedAt n) = Leaf.norm a := by
   cases a <;> rfl
 
 /-! ## `valLeaves` -/
@@ -450,7 +450,7 @@ theorem pickleV_valid {E : Env} (hC : CopyStable E) {sh : Shape} {v : CVal} (h :
     ∀ n, Valid E sh (pickleV n v).1 := by
   induction h with
   | any v => intro n; exact .any _
-  | leaf ha => intro n; exact .leaf (hC _ _ ha)
+  | leaf ha => intro n; exact .leaf (hC _ _ n ha)
   | node hlen hkeys _ ih =>
     intro n
     simp only [pickleV]
@@ -458,7 +458,7 @@ theorem pickleV_valid {E : Env} (hC : CopyStable E) {sh : Shape} {v : CVal} (h :
     · intro hk; rw [pickleL_length]; exact hlen hk
     · intro key hk
       obtain ⟨a, ha, rfl⟩ := List.mem_map.mp hk
-      exact hC _ _ (hkeys a ha)
+      exact hC _ _ n (hkeys a ha)
     · exact pickleL_valid_of_forall _ _ ih _
 
 end TraitsVerif.Lemmas.Persist
